@@ -223,33 +223,60 @@ def run_traces(ctx, cases, name="trace", batch=40, need_calibration=False):
 
 
 # ---- generator --------------------------------------------------------------------------------------------------
-def rand_doses(rng, n, lo=0.0, hi=300.0, need_big=False):
-    mode = rng.choice(["random", "random", "ascending", "descending", "with_zero", "equal_pair"])
+DOSE_MODES = ["random", "random", "sorted_up", "sorted_down", "with_zero", "equal_pair", "constant", "few_values",
+              "zero_middle", "ramp_up", "ramp_down", "multiples"]
+
+
+def rand_doses(rng, n, lo=0.0, hi=300.0, need_big=False, mode=None):
+    """Per-image doses in [lo, hi] e/A^2 (2 decimals), in any order: random, sorted, with exact zeros, repeated values,
+    constant vectors, arithmetic ramps and d*(1..n)."""
+    mode = mode or rng.choice(DOSE_MODES)
     ds = [round(rng.uniform(lo, hi), 2) for _ in range(n)]
-    if mode == "ascending":
+    if mode == "sorted_up":
         ds.sort()
-    elif mode == "descending":
+    elif mode == "sorted_down":
         ds.sort(reverse=True)
     elif mode == "with_zero":
         ds[rng.randrange(n)] = 0.0
     elif mode == "equal_pair" and n > 1:
         ds[rng.randrange(n)] = ds[0]
-    if need_big and max(ds) < 50.0:
-        ds[rng.randrange(n)] = round(rng.uniform(50.0, hi), 2)
+    elif mode == "constant":
+        ds = [round(rng.uniform(max(lo, 1.0), hi), 2)] * n
+    elif mode == "few_values":
+        pool = [round(rng.uniform(lo, hi), 2) for _ in range(2)]
+        ds = [rng.choice(pool) for _ in range(n)]
+    elif mode == "zero_middle" and n > 2:
+        ds[rng.randrange(1, n - 1)] = 0.0
+    elif mode in ("ramp_up", "ramp_down"):
+        step = round(rng.uniform(0.5, (hi - lo) / max(n, 1)), 2)
+        start = round(rng.uniform(lo, max(lo, hi - step * n)), 2)
+        ds = [round(start + i * step, 2) for i in range(n)]
+        if mode == "ramp_down":
+            ds.reverse()
+    elif mode == "multiples":
+        d = round(rng.uniform(0.5, (hi - lo) / max(n, 1)), 2)
+        ds = [round(d * (i + 1), 2) for i in range(n)]
+    ds = [min(hi, max(lo, x)) for x in ds]
+    if need_big and max(ds) < 50.0 and hi >= 50.0:
+        if mode == "constant":
+            ds = [round(rng.uniform(50.0, hi), 2)] * n
+        else:
+            ds[rng.randrange(n)] = round(rng.uniform(50.0, hi), 2)
     return ds
 
 
-def rand_case(rng, wh_lo=4, wh_hi=64, nmax=10, area_cap=None, force_grid=None, comp=None):
+def rand_case(rng, wh_lo=4, wh_hi=64, nmax=10, area_cap=None, force_grid=None, comp=None, nmin=1, dose_mode=None,
+              doses_as=None):
     while True:
         W, H = rng.randint(wh_lo, wh_hi), rng.randint(wh_lo, wh_hi)
         if rng.random() < 0.15:
             H = W
         if area_cap is None or W * H <= area_cap:
             break
-    n = rng.randint(1, nmax)
+    n = rng.randint(nmin, nmax)
     grid = force_grid if force_grid is not None else rng.random() < 0.6
     case = {"W": W, "H": H, "n": n, "mseed": rng.randrange(2 ** 31),
-            "doses_as": rng.choice(["array", "array", "list", "file"])}
+            "doses_as": doses_as or rng.choice(["array", "array", "list", "file"])}
     if grid:
         axis = rng.choice(["x", "y"])
         edge = W if axis == "x" else H
@@ -269,12 +296,12 @@ def rand_case(rng, wh_lo=4, wh_hi=64, nmax=10, area_cap=None, force_grid=None, c
     case["px"] = px
     want_comp = comp if comp is not None else rng.random() < 0.35
     if want_comp:
-        d1 = rand_doses(rng, n, 0.0, 150.0, need_big=grid)
-        d2 = [round(rng.uniform(0.0, 150.0), 2) for _ in range(n)]
+        d1 = rand_doses(rng, n, 0.0, 150.0, need_big=grid, mode=dose_mode)
+        d2 = rand_doses(rng, n, 0.0, 150.0, mode=dose_mode if dose_mode == "constant" else None)
         case["d100"] = [int(round(x * 100)) for x in d1]
         case["d2_100"] = [int(round(x * 100)) for x in d2]
     else:
-        case["d100"] = [int(round(x * 100)) for x in rand_doses(rng, n, need_big=grid)]
+        case["d100"] = [int(round(x * 100)) for x in rand_doses(rng, n, need_big=grid, mode=dose_mode)]
     return case
 
 
@@ -287,7 +314,8 @@ def run(ctx):
     rng = ctx.rng
     ctx.rule = ("L1: Dose.tla accepts the statement's filter and rejects five wrong variants on grid stacks. L3: stacks of 1..10 "
                 "images, W,H in 4..64 independently (even/odd, square and not), pixel sizes 0.5..10 A (60 % constructed so "
-                "that on-axis frequencies hit the calibration grid m/200 1/A), doses 0..300 in any order (array, list, file), "
+                "that on-axis frequencies hit the calibration grid m/200 1/A), doses 0..300 in any order - random, sorted, ramps, constant vectors, repeated values, exact zeros, d*(1..n) - as "
+                "ndarray, list and file, "
                 "gain of every integer frequency of every image measured on impulse images, cross-checked on random images "
                 "and plane waves, composition by filtering twice; exponents -ln(gain) x1000 decided by DoseTrace. "
                 "distinct = distinct (sizes, pixel size, doses, measurement seed)")
@@ -323,6 +351,12 @@ def run(ctx):
             cases.append(rand_case(rng, wh_lo=40, wh_hi=64, nmax=3, force_grid=True, comp=False))
             cases.append(rand_case(rng, wh_lo=4, wh_hi=9, nmax=10, force_grid=True, comp=True))
             cases.append(rand_case(rng, wh_lo=20, wh_hi=40, nmax=10, area_cap=1000, force_grid=True, comp=True))
+            # dose-vector shapes that loaders like to "interpret": constant vectors, d*(1..n), exact zeros in the middle,
+            # ramps - each as ndarray, list and file, judged against the PASSED doses (pairing, calibration)
+            for i, mode in enumerate(["constant", "constant", "constant", "multiples", "zero_middle", "ramp_down", "few_values",
+                                      "ramp_up", "constant"]):
+                cases.append(rand_case(rng, area_cap=500, nmin=2, nmax=7, force_grid=True, comp=(i == 8), dose_mode=mode,
+                                       doses_as=["array", "list", "file"][i % 3]))
             for c in cases:
                 c["pw_max"] = 16
         else:
@@ -331,4 +365,8 @@ def run(ctx):
             for _ in range(30):
                 cases.append(rand_case(rng, wh_lo=48, wh_hi=64, nmax=10))
             cases.append(rand_case(rng, wh_lo=64, wh_hi=64, nmax=10, force_grid=True, comp=True))
+            for i in range(90):
+                mode = ["constant", "multiples", "zero_middle", "ramp_down", "few_values", "ramp_up"][i % 6]
+                cases.append(rand_case(rng, area_cap=900, nmin=2, force_grid=(i % 2 == 0), dose_mode=mode,
+                                       doses_as=["array", "list", "file"][(i // 6) % 3]))
         run_traces(ctx, cases, batch=ctx.pick(40, 30), need_calibration=True)
